@@ -578,6 +578,5 @@ package core
 // "never" before the expiry test.
 //@ func (*Storage).LoadMinServiceGCSafePoint
 //@   props C15
-//@   requires s != nil
 //@   at Remove 1 assert [gc-worker-is-never-pruned] ssp.ServiceID != gcWorkerServiceSafePointID
 //@   modifies *
